@@ -7,5 +7,5 @@ import PcVerif.Ops.Xml
 import PcVerif.Ops.TextWriters
 import PcVerif.Ops.Scc
 namespace PcVerif.Ops
-def table : List (String × Proto.Handler) := utilOps ++ detectOps ++ baseOps ++ geoOps ++ textFormatOps ++ xmlOps ++ samiWriterOps ++ textWriterOps ++ xmlTextOps ++ sccOps ++ sccWriterOps ++ worldOps ++ langOps ++ xmlTreeOps ++ vttPosOps
+def table : List (String × Proto.Handler) := utilOps ++ detectOps ++ baseOps ++ geoOps ++ textFormatOps ++ xmlOps ++ samiWriterOps ++ textWriterOps ++ xmlTextOps ++ sccOps ++ sccWriterOps ++ worldOps ++ langOps ++ xmlTreeOps ++ vttPosOps ++ dfxpLayoutOps
 end PcVerif.Ops
